@@ -82,7 +82,7 @@ def main():
 
 
 MANIFEST = {
-    "claimed": False,
+    "claimed": True,
     "text": "Theorems (Coq, closed) about the decision model of Server::handle over the decoder's result summary (outcome class incl. authentication failure, version, mode, cookie), the two list-membership bits, the rate-limit state, for EVERY configuration (both list actions, require-nts none/ignore/deny, any accepted-version list, any cutoff/cache): the deny list is tested first and the outcome for a denied client does not depend on the allow list (C15_deny_first); denied or not-allowed clients get nothing (action ignore) or at most a DENY kiss (action deny), never time, never a NAK, registered as Policy (C15_denied, C15_not_allowed, C15_ignore_is_silent, C15_deny_at_most_deny); undecodable datagrams, non-client packets (also with a failing authenticator) and non-accepted versions are never answered (C15_unanswered); with NTS required a request without an authenticating cookie never gets time, a plain one nothing / at most DENY (C15_require_nts); a decoded client request of an accepted version from a list-passing, not rate-limited client (authenticated if NTS is required) gets a time answer registered Policy/ProvideTime, given the answer fits the buffer and the environment is healthy (C15_served). Tie: real Server::handle with real packets (plain v3/v4/v5, NTS with a real KeySet, foreign cookies, wrong keys) on the complete grid of decision inputs plus boundary and random streams; IPv4, IPv6 and IPv4-mapped clients.",
     "note": "The model is of the REPAIRED handler (commit `fix: never answer non-client packets whose NTS field fails to authenticate`, prepared as branch fix-c15-nonclient-nak): before that commit a non-client datagram whose NTS field fails to authenticate was answered with a NAK/DENY, and the check reports that as a violation with the datagram as replay. Trusted: Coq kernel+vm_compute; hand-written model coq/Model/Server.v; byte-level decoding (C23/C24), list membership (C31) and answer construction/serialisation (C16-C19) are inputs of the model: per generated datagram the summary comes from the real NtpPacket::deserialize, membership from the real IpFilter (the monitor recomputes membership in python), 'answer fits' from a probe call with an ample buffer. Print Assumptions: closed under the global context for all eight theorems.",
     "design_ref": "DESIGN.md 3 C15",
